@@ -175,7 +175,7 @@ class Runner:
         except Exception as ex:  # noqa: BLE001
             problem = f"__CACHE not readable as Resource(kind, name) -> entry: {type(ex).__name__}"
         if problem:
-            items.append({"cls": 4999, "name": "<internal>", "spec": {"problem": problem}, "value": ["other", "?"],
+            items.append({"cls": 99, "name": "<internal>", "spec": {"problem": problem}, "value": ["other", "?"],
                           "version": "?", "at": 0, "sys": None})
         return {"items": copy.deepcopy(items), "clock": self.clock.calls, "log": [list(x) for x in self.log]}
 
@@ -360,7 +360,7 @@ def c_value(v):
         return f"(VOk {v[1]})"
     if v[0] == "err":
         return f"(VErr {v[1]})"
-    return "(VErr 4999)"          # an object the preparer never made: matches nothing
+    return "(VErr 99)"          # an object the preparer never made: matches nothing
 
 
 def c_op(op):
